@@ -445,6 +445,9 @@ def explore(engine, harness, params, workers=None, max_paths=None, wall_budget=N
         # confirmed violation was already found), never as success
         tier = os.environ.get('VERIF_TIER_EFFECTIVE', 'quick')
         wall_budget = float(os.environ.get('VERIF_WALL_BUDGET', '0') or 0) or (420.0 if tier == 'quick' else 3000.0)
+    cap = float(os.environ.get('VERIF_WALL_BUDGET', '0') or 0)
+    if cap:
+        wall_budget = min(wall_budget, cap)      # an explicit cap from the environment always wins
     _G.clear()
     _G['harness'] = harness
     _G['engine'] = engine
